@@ -390,11 +390,14 @@ Fixpoint somes {A} (l : list (option A)) : list A :=
   | None :: r => somes r
   end.
 
-(* the list given to worker_pool.process for the subtile t (work_on_metatiles):
-   handle_all: [t];  otherwise (TileWalker._tiles_of) the members of the meta tile of t that pass the filter
-   keep = "not is_cached" (uncached mode) / "is_stale" (--skip-uncached mode), in tile_list order *)
-Definition handed_tiles (g : grid) (msx msy : Z) (handle_all : bool) (keep : coord -> bool) (t : coord) : list coord :=
-  if handle_all then [t] else filter keep (somes (meta_tile_list g msx msy t)).
+(* the list given to worker_pool.process for the subtile t.
+   womt = work_on_metatiles (false for caches with upscale_tiles / downscale_tiles: handle_tiles = grid.tile_list(subtile)).
+   handle_all: [t] when working on meta tiles, every member of the meta tile otherwise;
+   not handle_all (TileWalker._tiles_of): the members of the meta tile of t that pass the filter
+   keep = "not is_cached" (uncached mode) / "is_stale" (--skip-uncached mode) - in both cases in tile_list order *)
+Definition handed_tiles (g : grid) (msx msy : Z) (womt handle_all : bool) (keep : coord -> bool) (t : coord) : list coord :=
+  if handle_all then (if womt then [t] else somes (meta_tile_list g msx msy t))
+  else filter keep (somes (meta_tile_list g msx msy t)).
 
 Inductive oevent : Type :=
 | OProc (ts : list coord)                     (* worker_pool.process(ts, ...) *)
@@ -403,21 +406,21 @@ Inductive oevent : Type :=
 
 (* the observable trace: process is only called with a non-empty list (the duplicate deque is updated before that
    test, so dropping the call does not influence the rest of the walk) *)
-Fixpoint observe (g : grid) (msx msy : Z) (handle_all : bool) (keep : coord -> bool) (evs : list event) : list oevent :=
+Fixpoint observe (g : grid) (msx msy : Z) (womt handle_all : bool) (keep : coord -> bool) (evs : list event) : list oevent :=
   match evs with
   | [] => []
   | EProc t :: r =>
-    match handed_tiles g msx msy handle_all keep t with
-    | [] => observe g msx msy handle_all keep r
-    | ts => OProc ts :: observe g msx msy handle_all keep r
+    match handed_tiles g msx msy womt handle_all keep t with
+    | [] => observe g msx msy womt handle_all keep r
+    | ts => OProc ts :: observe g msx msy womt handle_all keep r
     end
-  | ERep lv id :: r => ORep lv id :: observe g msx msy handle_all keep r
-  | EErr :: r => OErr :: observe g msx msy handle_all keep r
+  | ERep lv id :: r => ORep lv id :: observe g msx msy womt handle_all keep r
+  | EErr :: r => OErr :: observe g msx msy womt handle_all keep r
   end.
 
 (* every single tile handed over in a trace *)
-Definition handed_all (g : grid) (msx msy : Z) (handle_all : bool) (keep : coord -> bool) (evs : list event) : list coord :=
-  flat_map (handed_tiles g msx msy handle_all keep) (procs evs).
+Definition handed_all (g : grid) (msx msy : Z) (womt handle_all : bool) (keep : coord -> bool) (evs : list event) : list coord :=
+  flat_map (handed_tiles g msx msy womt handle_all keep) (procs evs).
 
 Fixpoint coords_eqb (a b : list coord) : bool :=
   match a, b with
@@ -444,3 +447,21 @@ Fixpoint oevents_eqb (a b : list oevent) : bool :=
 (* filter used for the tree-level tie: process calls of the listed subtiles are dropped (all members cached) *)
 Definition drop_procs (drop : list coord) (evs : list event) : list event :=
   filter (fun e => match e with EProc t => negb (existsb (coord_eqb t) drop) | _ => true end) evs.
+
+(* ------------------------------------------------------------------ the progress store: one entry per task id *)
+
+(* ProgressStore.status: a dict task id -> progress identifier; add = dict assignment (newest binding first),
+   get = status.get(id, None).  K = type of task ids with its equality test. *)
+Section Store.
+  Variable K : Type.
+  Variable keqb : K -> K -> bool.
+  Definition pstore := list (K * option path).
+  Definition store_get (s : pstore) (k : K) : option path :=
+    match find (fun e => keqb k (fst e)) s with Some e => snd e | None => None end.
+  Definition store_add (s : pstore) (k : K) (v : option path) : pstore := (k, v) :: s.
+  Definition store_adds (s : pstore) (ws : list (K * option path)) : pstore :=
+    fold_left (fun s w => store_add s (fst w) (snd w)) ws s.
+End Store.
+Arguments store_get {K}.
+Arguments store_add {K}.
+Arguments store_adds {K}.
